@@ -183,7 +183,10 @@ STRUCT = {
             "11 parameter lists (lifetimes, bounded / defaulted / const parameters) x 8 counterpart paths (generic, lifetime, foreign and repeated lifetime arguments) x 12 conversion kinds x 4 where_clause settings"),
     "c01": ("struct_init_block / struct_init_block_inner: which members are rendered, skipped, and how the body is delimited",
             "From: every own field receives exactly its designated counterpart value; Into / into_existing: exactly the designated counterpart fields are written, each once, ghosts skipped, bare parents poured once, struct-level ghosts added",
-            "all member sequences of length 1..3 over 10 member forms (plain, renamed, expression, both, from/into pair, ghost, child, nested child + rename, `@`/`~` expressions, bare parent) x with / without struct-level ghosts: 2,220 structs x 6 impls, against an oracle written from the statement"),
+            "all member sequences of length 1..3 over 10 member forms (plain, renamed, expression, both, from/into pair, ghost, child, nested child + rename, `@`/`~` expressions, bare parent) x with / without struct-level ghosts: 2,220 structs x 6 impls, against an oracle written from the statement; plus all 256 tuple structs of 4 members over {plain, expression, ghost, bare parent} x {B, B as ()}: Into writes position k for the k-th rendered member, in the literal and in the `obj.k = ..` form"),
+    "c04": ("validate_struct_attrs (uniqueness per kind / fallibility / counterpart), get_data_type_attrs, data_type_impl end to end",
+            "accepted input => the impl headers are exactly the documented ones for its instructions, pairwise distinct (a (kind, fallibility, counterpart) requested twice must not be accepted), `type Error` is the declared error type, and the set does not depend on the order of the instructions",
+            "24 instructions x 4 counterpart forms x 2 error types x 3 item shapes singly; all 24 x 24 ordered pairs x {same counterpart, different counterparts, different generic arguments} x both orders: 18,156 inputs against the README table re-typed in the test"),
     "c07": ("whole bodies (struct_init_block(_inner), struct_post_init, main_code_block) across the twelve impls of one input",
             "by-reference body = owned body with borrows; fallible body = Ok(..) of the infallible one with `?` on the poured parent; into_existing assigns to every field what into builds, and pours the same parents",
             "all member sequences of length 1..3 over 9 member forms (plain, renamed, expression, both, from/into pair, ghost, child, nested child, bare parent) x with / without struct-level ghosts = 1,638 structs, each with map + try_map + into_existing + try_into_existing (12 impls)"),
@@ -299,7 +302,11 @@ def run(prop, tier):
 
 
 def _run(prop, tier):
-    if prop in ("C13", "C04"):
+    if prop == "C04":
+        v, rep = metamorphic("c13", prop)
+        v2, rep2 = structural("c04", prop)
+        return {"violations": v + v2, "report": {"front_end_spellings": rep, "documented_impl_sets": rep2}}
+    if prop == "C13":
         v, rep = metamorphic("c13", prop)
         return {"violations": v, "report": {"front_end_spellings": rep}}
     if prop == "C12":
